@@ -4,6 +4,7 @@ import DiskfsModel.Model.Sqfs.Map
 import DiskfsModel.Model.Sqfs.Meta
 import DiskfsModel.Model.Sqfs.Codec
 import DiskfsModel.Model.Sqfs.Reader
+import DiskfsModel.Model.Sqfs.Regions
 namespace Driver.Sqfs
 open Diskfs Diskfs.Sqfs Driver
 
@@ -80,6 +81,26 @@ def image (args : List String) : IO String := do
       if e.kind == "f" then s!"{e.path}|f|{e.size}|{e.crc}" else if e.kind == "l" then s!"{e.path}|l|{e.target}" else s!"{e.path}|d")
     return s!"bs={r.bs}\tinodes={r.inodes}\tused={r.bytesUsed}\tv={v}"
 
+def lst (args : List String) (k : String) : List Nat := natList ((arg args k).getD "-")
+
+def natsStr (l : List Nat) : String := if l.isEmpty then "-" else ",".intercalate (l.map toString)
+
+/-- sqfs.regions opt= data= frags= ino= dir= ft= ex=(none | sizes) id= → every WriteAt of Finalize
+    (offset:length, in order, the superblock last) and the superblock's table starts / bytes_used -/
+def regionsOp (args : List String) : String :=
+  let ex : Option (List Nat) := if (arg args "ex").getD "none" == "none" then none else some (lst args "ex")
+  let p : Pieces := { opt := argNatD args "opt", data := lst args "data", frags := lst args "frags", inodes := lst args "ino",
+                      dirs := lst args "dir", fragTbl := lst args "ft", exportTbl := ex, idTbl := lst args "id" }
+  let f := finalize p
+  let ws := ",".intercalate (f.writes.map fun (o, n) => s!"{o}:{n}")
+  s!"w={ws}\tinS={f.inodeStart}\tdS={f.dirStart}\tfS={f.fragStart}\teS={f.exportStart}\tidS={f.idStart}\txS={f.xattrStart}\tused={f.bytesUsed}"
+
+/-- sqfs.chunks gt=item sizes | e= n= → payload sizes of the metadata blocks the writers cut -/
+def chunksOp (args : List String) : String :=
+  match arg args "gt" with
+  | some s => s!"c={natsStr (chunkGT (natList s) 0)}"
+  | none => s!"c={natsStr (chunkGE (argNatD args "e") (argNatD args "n") 0)}"
+
 end Driver.Sqfs
 
 partial def loop (h : IO.FS.Stream) (out : IO.FS.Stream) : IO Unit := do
@@ -95,6 +116,8 @@ partial def loop (h : IO.FS.Stream) (out : IO.FS.Stream) : IO Unit := do
       | "sqfs.sb" => pure (Driver.Sqfs.sb args)
       | "sqfs.sbparse" => pure (Driver.Sqfs.sbParse args)
       | "sqfs.image" => Driver.Sqfs.image args
+      | "sqfs.regions" => pure (Driver.Sqfs.regionsOp args)
+      | "sqfs.chunks" => pure (Driver.Sqfs.chunksOp args)
       | _ => pure "unknown-op"
     out.putStrLn s!"model\t{id}\t{r}"
   | _ => pure ()
